@@ -42,7 +42,8 @@ CONSTANTS Kind,     \* "theorem" | "table" | "replay"
           Mode,     \* "vbft" | "solo"
           Rule,     \* "legacy" | "bft"   (vbft only)
           N,        \* genesis validators are 1..N ; N+1, N+2 are outsiders
-          FullN,    \* table: all signer subsets up to this N, prefixes above
+          FullN,    \* table: all signer subsets up to this size, prefixes above
+          NsLegacy, NsBft, NsSolo,   \* table: validator-set sizes of the vbft/legacy, vbft/bft and solo worlds
           Cfgs,     \* replay: the announceable key sets, e.g. {{5}, {2,5}}
           Lists,    \* replay: signer sets of the header alphabet (listed in increasing order, all signatures valid)
           Paths,    \* replay: subset of {"hdr","sub","add"}
@@ -121,16 +122,17 @@ ThmOK(r) == LET hd == [bk |-> r.bk, sg |-> r.sg, cfg |-> <<>>, body |-> "ok"]
                /\ MonRule("solo", "bft", r.S, hd, SoloVerify(r.S, hd))
 
 (* ------------------------------------------------------------ P-TABLE rows *)
+(* validators of a table world are 1..n, n+1 and n+2 are outsiders; T = who signs *)
 G  == 1..N
-O1 == N + 1
-O2 == N + 2
-SignerSets == IF N <= FullN THEN SUBSET G ELSE {1..k : k \in 0..N} \cup {G \ {1}}
+SignerSets(n) == IF n <= FullN THEN SUBSET (1..n) ELSE {1..k : k \in 0..n} \cup {(1..n) \ {1}}
 Upd(s, i, x) == [s EXCEPT ![i] = x]
 Row(v, bk, sg) == [v |-> v, bk |-> bk, sg |-> sg]
 
-VbftVariants(T) ==
-  LET b == SortedSeq(T)
-      k == Len(b)
+VbftVariants(n, T) ==
+  LET b  == SortedSeq(T)
+      k  == Len(b)
+      O1 == n + 1
+      O2 == n + 2
   IN {Row("plain", b, b), Row("nosigs", b, <<>>), Row("surplus-bad", b, b \o <<0>>),
       Row("foreign-last", b \o <<O1>>, b \o <<O1>>), Row("foreign-first", <<O1>> \o b, <<O1>> \o b),
       Row("foreign-key-only", b \o <<O1>>, b), Row("foreign-sig-extra", b, b \o <<O1>>)}
@@ -142,34 +144,42 @@ VbftVariants(T) ==
              Row("few-sigs", b, SubSeq(b, 1, k - 1)), Row("all-bad", b, [i \in 1..k |-> 0]),
              Row("foreign-replaces-first", Upd(b, 1, O1), Upd(b, 1, O1)),
              Row("bad-then-good", b, <<0>> \o b)}
-            \cup {Row("unlisted-member-sig", b, Upd(b, 1, x)) : x \in (IF G \ T = {} THEN {} ELSE {Min(G \ T)})}
+            \cup {Row("unlisted-member-sig", b, Upd(b, 1, x)) : x \in (IF (1..n) \ T = {} THEN {} ELSE {Min((1..n) \ T)})}
            ELSE {Row("foreign-only-two", <<O1, O2>>, <<O1, O2>>)})
 
 (* solo: the header must list the whole committed key list; T = who really signs *)
-SoloVariants(T) ==
-  LET full == Seq1(N)
+SoloVariants(n, T) ==
+  LET full == Seq1(n)
       s    == SortedSeq(T)
       k    == Len(s)
+      O1   == n + 1
   IN {Row("plain", full, s), Row("keys-reversed", Rev(full), s), Row("sigs-reversed", full, Rev(s)),
       Row("keys-subset", s, s), Row("surplus-bad", full, s \o <<0>>), Row("bad-then-good", full, <<0>> \o s),
       Row("foreign-extra-key", full \o <<O1>>, s \o <<O1>>),
       Row("foreign-replaces-first", Upd(full, 1, O1), (IF 1 \in T THEN Upd(s, 1, O1) ELSE <<O1>> \o s)),
-      Row("dup-key", full \o <<1>>, s \o <<1>>), Row("outsiders-only", [i \in 1..N |-> N + i], [i \in 1..k |-> N + i])}
+      Row("dup-key", full \o <<1>>, s \o <<1>>), Row("outsiders-only", [i \in 1..n |-> n + i], [i \in 1..k |-> n + i])}
      \cup (IF k >= 1 THEN {Row("dup-sig", full, <<s[1]>> \o s), Row("bad-first", full, Upd(s, 1, 0)),
                            Row("bad-last", full, Upd(s, k, 0)), Row("all-bad", full, [i \in 1..k |-> 0])}
            ELSE {})
 
-TableRows == UNION {IF Mode = "vbft" THEN VbftVariants(T) ELSE SoloVariants(T) : T \in SignerSets}
+(* the whole table of one run: three worlds families, each over its own set of sizes *)
+Worlds == {[mode |-> "vbft", rule |-> "legacy", n |-> n] : n \in NsLegacy}
+          \cup {[mode |-> "vbft", rule |-> "bft", n |-> n] : n \in NsBft}
+          \cup {[mode |-> "solo", rule |-> "bft", n |-> n] : n \in NsSolo}
+WorldRows(w) == UNION {IF w.mode = "vbft" THEN VbftVariants(w.n, T) ELSE SoloVariants(w.n, T) : T \in SignerSets(w.n)}
 
-TableOut(r) ==
-  LET hd == [bk |-> r.bk, sg |-> r.sg, cfg |-> (IF Mode = "solo" THEN Seq1(N) ELSE <<>>), body |-> "ok"]
-  IN [mode |-> Mode, rule |-> Rule, n |-> N, v |-> r.v, bk |-> r.bk, sg |-> r.sg, cfg |-> hd.cfg,
-      exp |-> Verify(Mode, Rule, G, hd), quorum |-> Quorum(Mode, Rule, G, hd), canon |-> Canonical(Mode, Rule, G, hd),
-      need |-> Need(Mode, Rule, N)]
+TableOut(w, r) ==
+  LET hd == [bk |-> r.bk, sg |-> r.sg, cfg |-> (IF w.mode = "solo" THEN Seq1(w.n) ELSE <<>>), body |-> "ok"]
+      S  == 1..w.n
+  IN [mode |-> w.mode, rule |-> w.rule, n |-> w.n, v |-> r.v, bk |-> r.bk, sg |-> r.sg, cfg |-> hd.cfg,
+      exp |-> Verify(w.mode, w.rule, S, hd), quorum |-> Quorum(w.mode, w.rule, S, hd),
+      canon |-> Canonical(w.mode, w.rule, S, hd), need |-> Need(w.mode, w.rule, w.n)]
 
 (* ----------------------------------------------------------- P-REPLAY model *)
 Bodies == {"ok", "bad"}
-Alphabet == [bk : {SortedSeq(x) : x \in Lists}, cfg : {<<>>} \cup {SortedSeq(c) : c \in Cfgs}, body : Bodies]
+Alphabet == [bk : {SortedSeq(x) : x \in Lists},
+             cfg : (IF Mode = "solo" THEN {} ELSE {<<>>}) \cup {SortedSeq(c) : c \in Cfgs},    \* solo headers always commit to a list
+             body : Bodies]
 Hd(a) == [bk |-> a.bk, sg |-> a.bk, cfg |-> a.cfg, body |-> a.body]
 
 HdrStep(a) ==                       \* AddHeader: nothing can fail after verifyHeader
@@ -190,11 +200,13 @@ BlkStep(op, a) ==                   \* SubmitBlock ("sub") / AddBlock ("add")
 
 (* ------------------------------------------------------------------ spec *)
 Init == \/ /\ Kind = "theorem" /\ st \in ThmRoots /\ h = <<>>
-        \/ /\ Kind = "table" /\ st \in TableRows /\ h = <<>>
+        \/ /\ Kind = "table" /\ st \in Worlds /\ h = <<>>
         \/ /\ Kind = "replay" /\ st = [fh |-> G, fb |-> G, gh |-> G, gb |-> G] /\ h = <<>>
 
-Decide == /\ Kind = "table" /\ h = <<>> /\ h' = <<"done">> /\ st' = st
-          /\ (~EmitOn \/ PrintT(<<"ROW", ToJson(TableOut(st))>>))
+Decide == /\ Kind = "table" /\ h = <<>> /\ h' = <<"row">>
+          /\ \E r \in WorldRows(st) :
+               /\ st' = TableOut(st, r)
+               /\ (~EmitOn \/ PrintT(<<"ROW", ToJson(st')>>))
 
 Step == /\ Kind = "replay" /\ Len(h) < D
         /\ \E a \in Alphabet :
@@ -212,8 +224,7 @@ Emit == IF Kind = "replay" /\ EmitOn /\ Len(h) = D THEN PrintT(<<"TRACE", ToJson
 (* the property on the design *)
 PropC14 ==
   /\ Kind = "theorem" /\ h # <<>> => ThmOK(st)
-  /\ Kind = "table" /\ h = <<>> =>
-        LET o == TableOut(st) IN (o.exp => o.quorum) /\ (o.canon => o.exp)
+  /\ Kind = "table" /\ h # <<>> => (st.exp => st.quorum) /\ (st.canon => st.exp)
   /\ Kind = "replay" => st.fh = st.gh /\ st.fb = st.gb      \* SetOnly: the node's sets are the sets in force
 
 (* action-level monitor for the replay model: every accepted step had a quorum of the set in force before *)
